@@ -309,3 +309,368 @@ def dist_key(c):
 
 def nontrivial(c):
     return len(c["cells"]) >= 2
+
+
+# =====================================================================================
+# Histories on shared objects (model: coq/Alloc/Hist.v)
+#
+# A history case is {"cells": ..., "hops": [...], "eps", "aeps", "kind"}.  A step is one call of the public API on
+# one of the Allocation objects built so far (index taken modulo their number, cell index modulo the number of cells):
+#   ["apply", k, ["refine", t, levels] | ["uniform"] | ["griddify"]]   b = A[k].<op>(...); b is appended to A
+#   ["copy", k]                     b = Allocation([(c.rect, c.alloc, c.depth) for c in A[k].allocations]); appended
+#   ["setfixed", k, i, b]           A[k].allocations[i].rect.fixed = b   (public setter, used in place by the repository)
+#   ["mbr", k, t]  ["maxdepth", k]  ["numrect", k]  ["areas", k]           queries
+# The objects are never rebuilt between steps: what a later call returns on an object that was already queried, refined
+# or whose cells were flagged in place (possibly through another allocation sharing the Rectangle) is compared with the
+# pure model on the current values.
+# =====================================================================================
+HEADER_H = """From FrameModel Require Import Num.QcTac Geometry.Rect Cases.Cmp Alloc.Alloc Alloc.Hist Cases.CmpAlloc.
+Open Scope Qc_scope."""
+
+MAX_CELLS = 96           # per allocation (the constructor's overlap check is quadratic)
+MAX_TOTAL = 420          # over all allocations of a history
+
+
+def cells_obs(a):
+    return [{"rect": fr.rect_obs(x.rect), "alloc": [[m, q] for m, q in x.alloc.items()], "depth": x.depth}
+            for x in a.allocations]
+
+
+def areas_obs(a):
+    mods = []
+    for x in a.allocations:
+        for m in x.alloc:
+            if m not in mods:
+                mods.append(m)
+    return [[m, a.area(m), [a.center(m).x, a.center(m).y]] for m in mods]
+
+
+def _predicted_size(a, o):
+    n = len(a.allocations)
+    if o[0] == "refine":
+        return n * 2 ** max(o[2], 0)
+    if o[0] == "uniform":
+        md = max(x.depth for x in a.allocations)
+        return sum(2 ** (md - x.depth) for x in a.allocations)
+    xs = {v for x in a.allocations for v in (x.rect.bounding_box.ll.x, x.rect.bounding_box.ur.x)}
+    ys = {v for x in a.allocations for v in (x.rect.bounding_box.ll.y, x.rect.bounding_box.ur.y)}
+    return min(n * 8, (len(xs) - 1) * (len(ys) - 1) + n)
+
+
+def run_hist_impl(case):
+    from frame.geometry.geometry import Rectangle
+    from frame.allocation.allocation import Allocation
+    Rectangle.undefine_epsilon()
+    Rectangle.set_epsilon(float(case["eps"]), float(case["aeps"]))
+    try:
+        try:
+            A = [build_alloc(case["cells"])]
+        except (AssertionError, ZeroDivisionError) as e:
+            return {"init": None, "err": type(e).__name__}
+        obs = {"init": {"cells": cells_obs(A[0])}, "steps": []}
+        for h in case["hops"]:
+            k = h[1] % len(A)
+            a = A[k]
+            src = cells_obs(a)
+            snap = [cells_obs(x) for x in A]
+            st = {"k": k, "src": src}
+            if h[0] == "apply":
+                o = h[2]
+                if _predicted_size(a, o) > MAX_CELLS or sum(len(x.allocations) for x in A) > MAX_TOTAL:
+                    break
+                try:
+                    if o[0] == "refine":
+                        b = a.refine(float(o[1]), o[2])
+                    elif o[0] == "uniform":
+                        b = a.uniform_refinement_depth()
+                    else:
+                        b = a.griddify()
+                except (AssertionError, ZeroDivisionError, IndexError, KeyError) as e:
+                    b = None
+                    st["err"] = type(e).__name__
+                st["new"] = None if b is None else cells_obs(b)
+                if b is not None:
+                    st["new_areas"] = areas_obs(b)
+                    A.append(b)
+            elif h[0] == "copy":
+                try:
+                    b = Allocation([(c.rect, c.alloc, c.depth) for c in a.allocations])
+                except (AssertionError, ZeroDivisionError) as e:
+                    b = None
+                    st["err"] = type(e).__name__
+                st["new"] = None if b is None else cells_obs(b)
+                if b is not None:
+                    A.append(b)
+            elif h[0] == "setfixed":
+                i = h[2] % len(a.allocations)
+                st["i"] = i
+                a.allocations[i].rect.fixed = bool(h[3])
+                st["flags"] = [[x.rect.fixed for x in y.allocations] for y in A]
+            elif h[0] == "mbr":
+                st["val"] = bool(a.must_be_refined(float(h[2])))
+            elif h[0] == "maxdepth":
+                st["val"] = int(a.max_refinement_depth())
+            elif h[0] == "numrect":
+                st["val"] = int(a.num_rectangles)
+            elif h[0] == "areas":
+                st["val"] = areas_obs(a)
+            else:
+                raise ValueError(f"unknown history step {h[0]}")
+            # what the step did to the allocations that existed before it (flags aside for a setfixed step)
+            now = [cells_obs(x) for x in A[:len(snap)]]
+            if h[0] == "setfixed":
+                strip = lambda cs: [[dict(c, rect=dict(c["rect"], fixed=None)) for c in x] for x in cs]
+                st["others_unchanged"] = strip(now) == strip(snap)
+            else:
+                st["others_unchanged"] = now == snap
+            obs["steps"].append(st)
+        return obs
+    finally:
+        Rectangle.undefine_epsilon()
+
+
+def ghop(h):
+    if h[0] == "apply":
+        return f"(HApply {gnat(h[1])} {gop(h[2])})"
+    if h[0] == "copy":
+        return f"(HCopy {gnat(h[1])})"
+    if h[0] == "setfixed":
+        return f"(HSetFixed {gnat(h[1])} {gnat(h[2])} {gbool(h[3])})"
+    if h[0] == "mbr":
+        return f"(HMbr {gnat(h[1])} {gq(h[2])})"
+    name = {"maxdepth": "HMaxDepth", "numrect": "HNumRect", "areas": "HAreas"}[h[0]]
+    return f"({name} {gnat(h[1])})"
+
+
+def gobs(h, st):
+    if h[0] in ("apply", "copy"):
+        return f"(ONew {gopt(None if st['new'] is None else gcells(st['new']))})"
+    if h[0] == "setfixed":
+        return f"(OFlags {glist([glist([gbool(b) for b in fl]) for fl in st['flags']])})"
+    if h[0] == "mbr":
+        return f"(OBool {gbool(st['val'])})"
+    if h[0] in ("maxdepth", "numrect"):
+        return f"(ONat {gnat(st['val'])})"
+    return "(OAreas " + glist([f"({gstr(m)}, {gq(a)}, ({gq(c[0])}, {gq(c[1])}))" for m, a, c in st["val"]]) + ")"
+
+
+def hist_to_coq(case, obs):
+    aeps, eps, q = gq(case["aeps"]), gq(case["eps"]), gq(RATIO_F)
+    C0 = gcells(case["cells"])
+    if obs["init"] is None:
+        return f"match mk_allocation {aeps} {C0} with None => true | Some _ => false end"
+    scale = gq(max([abs(core.frac(c["rect"]["cx"])) + abs(core.frac(c["rect"]["cy"])) +
+                    core.frac(c["rect"]["w"]) + core.frac(c["rect"]["h"]) for c in obs["init"]["cells"]] + [1]))
+    hops = case["hops"][:len(obs["steps"])]
+    ops = glist([ghop(h) for h in hops])
+    exp = glist([gobs(h, st) for h, st in zip(hops, obs["steps"])])
+    extra = []
+    for h, st in zip(hops, obs["steps"]):
+        if h[0] == "apply" and st.get("new") is not None:
+            # the new object's own area()/center() (computed by its constructor) against the model on its cells
+            A = gcells(st["new"])
+            extra.append(f"areas_eqb {scale} (areas_of {A}) " +
+                         glist([f"({gstr(m)}, {gq(a)}, ({gq(c[0])}, {gq(c[1])}))" for m, a, c in st["new_areas"]]))
+    parts = [f"opt_eqb cells_eqb (mk_allocation {aeps} {C0}) (Some {gcells(obs['init']['cells'])})",
+             f"match hist {eps} {aeps} {q} {C0} {ops} with Some l => list_eqb (hobs_eqb {scale}) l {exp} | None => false end"]
+    return " && ".join(f"({p})" for p in parts + extra)
+
+
+# ---------------- generator of histories ----------------
+def _gen_refine(rng, cells):
+    ratios = [a[1] for c in cells for a in c["alloc"]] or [F(1, 2)]
+    t = rng.choice([F(1), F(1), F(15, 16), F(1, 2), F(1, 4), F(0), rng.choice(ratios), rng.choice(ratios),
+                    F(rng.randrange(0, 17), 16)])
+    return ["refine", t, rng.choice([1, 1, 1, 1, 2, 2, 3, 0])]
+
+
+def _gen_trans(rng, cells):
+    o = rng.choice(["refine", "refine", "refine", "uniform", "uniform", "griddify"])
+    return _gen_refine(rng, cells) if o == "refine" else [o]
+
+
+def _gen_query(rng, cells, k):
+    o = rng.choice(["mbr", "mbr", "maxdepth", "numrect", "areas"])
+    if o == "mbr":
+        return ["mbr", k, _gen_refine(rng, cells)[1]]
+    return [o, k]
+
+
+def gen_hist_case(rng, template=None):
+    """A history: allocation + calls on shared objects.  The motifs are chosen so that every kind of call is followed,
+    on the SAME object, by an in-place flag change and by every other kind of call (also with other arguments), and so
+    that flags are changed through a derived allocation sharing the cell."""
+    while True:
+        kind, cells = gen_alloc(rng)
+        if len(cells) <= 9:
+            break
+    if rng.random() < 0.6 and len(cells) > 1:       # non-uniform depths make uniform_refinement_depth do something
+        for c in cells:
+            c["depth"] = rng.choice([0, 0, 1, 1, 2])
+    n = [1]          # number of allocations (a refine with levels=0 raises and adds none)
+
+    def pick_k():
+        return rng.choice([0, 0, n[0] - 1, n[0] - 1, rng.randrange(n[0])])
+
+    def trans(k, o=None):
+        o = o or _gen_trans(rng, cells)
+        if not (o[0] == "refine" and o[2] == 0):
+            n[0] += 1
+        return ["apply", k, o]
+
+    def setfixed(k, b=None):
+        return ["setfixed", k, rng.randrange(0, 64), rng.random() < 0.75 if b is None else b]
+
+    hops = []
+    motifs = ["stale", "stale", "stale", "shared", "shared", "repeat", "flipflop", "chain", "copy", "random"]
+    if template is not None:
+        motifs = [template]
+    for _ in range(rng.choice([1, 1, 2, 2, 3])):
+        m = rng.choice(motifs)
+        k = pick_k()
+        if m == "stale":
+            # any call, then a flag change on the same object, then any call again (a memo of the first call would be stale)
+            first = rng.choice(["q", "q", "t", "t", "t"])
+            hops.append(_gen_query(rng, cells, k) if first == "q" else trans(k))
+            for _ in range(rng.choice([1, 1, 2])):
+                hops.append(setfixed(k))
+            second = rng.choice(["t", "t", "t", "q", "both"])
+            if second in ("q", "both"):
+                hops.append(_gen_query(rng, cells, k))
+            if second in ("t", "both"):
+                hops.append(trans(k))
+        elif m == "shared":
+            # derive b from a, flag a cell through b (or through a), then call both
+            hops.append(trans(k))
+            j = n[0] - 1
+            if rng.random() < 0.5:
+                hops.append(_gen_query(rng, cells, j))
+            hops.append(setfixed(rng.choice([j, j, k])))
+            order = [k, j] if rng.random() < 0.5 else [j, k]
+            for x in order:
+                hops.append(trans(x) if rng.random() < 0.7 else _gen_query(rng, cells, x))
+        elif m == "repeat":
+            # the same object called repeatedly with other arguments; must_be_refined next to the refine it predicts
+            o1, o2 = _gen_refine(rng, cells), _gen_refine(rng, cells)
+            seq = [["mbr", k, o1[1]], trans(k, o1), ["mbr", k, o2[1]], trans(k, o2), ["mbr", k, o1[1]], trans(k, list(o1))]
+            if rng.random() < 0.5:
+                seq.insert(rng.randrange(1, len(seq)), setfixed(k))
+            hops += seq[:rng.choice([2, 4, 4, 6, 7])]
+        elif m == "flipflop":
+            i = rng.randrange(0, 64)
+            o = _gen_trans(rng, cells)
+            hops += [["setfixed", k, i, True], trans(k, list(o)), ["setfixed", k, i, False], trans(k, list(o))]
+            if rng.random() < 0.5:
+                hops += [["setfixed", k, i, True], trans(k, list(o))]
+        elif m == "chain":
+            for _ in range(rng.choice([2, 3])):
+                hops.append(trans(n[0] - 1))
+                if rng.random() < 0.4:
+                    hops.append(setfixed(n[0] - 1))
+        elif m == "copy":
+            hops.append(["copy", k])
+            n[0] += 1
+            hops.append(setfixed(rng.choice([k, n[0] - 1])))
+            hops.append(trans(k))
+            hops.append(trans(n[0] - 2) if rng.random() < 0.5 else _gen_query(rng, cells, n[0] - 2))
+        else:
+            for _ in range(rng.choice([2, 3, 4])):
+                r = rng.random()
+                hops.append(trans(pick_k()) if r < 0.4 else setfixed(pick_k()) if r < 0.7 else
+                            _gen_query(rng, cells, pick_k()))
+    hops = hops[:12]
+    return {"kind": "hist-" + kind, "cells": cells, "hops": hops,
+            "eps": F(1, 2 ** 20), "aeps": rng.choice([F(1, 2 ** 10), F(0), F(1, 4)])}
+
+
+QKINDS = ["mbr", "refine", "uniform", "griddify", "maxdepth", "numrect", "areas", "copy", "derived"]
+TKINDS = ["refine", "uniform", "griddify", "mbr"]
+
+
+def gen_hist_template(rng, idx):
+    """Systematic part: for every kind of first call Q and every kind of later call T, the history
+    Q(A0); A0.cell[i].fixed = True; T(A0) [; fixed = False; T(A0)] where cell i is one that the later call would cut
+    (not fixed, occupied, shallower than the deepest cell).  'derived' flags the cell through an allocation derived
+    from A0 that shares the Rectangle object."""
+    qk = QKINDS[idx % len(QKINDS)]
+    tk = TKINDS[(idx // len(QKINDS)) % len(TKINDS)]
+    while True:
+        kind, cells = gen_alloc(rng)
+        if not 2 <= len(cells) <= 8:
+            continue
+        for c in cells:
+            c["depth"] = rng.choice([0, 0, 1, 2])
+        md = max(c["depth"] for c in cells)
+        good = [i for i, c in enumerate(cells) if not c["rect"]["fixed"] and c["alloc"] and c["depth"] < md
+                and max(q for _, q in c["alloc"]) > 0]
+        if good:
+            break
+    i = rng.choice(good)
+    tmax = max(q for _, q in cells[i]["alloc"])
+    t = rng.choice([F(1), tmax])
+    lv = rng.choice([1, 1, 2])
+    first = {"mbr": [["mbr", 0, t]], "refine": [["apply", 0, ["refine", t, lv]]],
+             "uniform": [["apply", 0, ["uniform"]]], "griddify": [["apply", 0, ["griddify"]]],
+             "maxdepth": [["maxdepth", 0]], "numrect": [["numrect", 0]], "areas": [["areas", 0]],
+             "copy": [["copy", 0]],
+             "derived": [["apply", 0, ["refine", F(0), 1]]]}[qk]
+    later = {"refine": ["apply", 0, ["refine", t, lv]], "uniform": ["apply", 0, ["uniform"]],
+             "griddify": ["apply", 0, ["griddify"]], "mbr": ["mbr", 0, t]}[tk]
+    via = 1 if qk in ("copy", "derived") else 0      # the allocation through which the flag is set
+    j = i
+    if qk == "derived":      # refine(0) cuts only occupied cells whose ratios are all 0: cell i is handed over as it is
+        j = i + sum(1 for c in cells[:i] if splittable(c, F(0)))
+    hops = first + [["setfixed", via, j, True], list(later)]
+    if tk == "mbr":
+        hops.append(["apply", 0, ["refine", t, lv]])
+    if rng.random() < 0.5:
+        hops += [["setfixed", via, j, False], list(later)]
+        if tk == "mbr":
+            hops.append(["apply", 0, ["refine", t, lv]])
+    return {"kind": f"tmpl-{qk}-{tk}", "cells": cells, "hops": hops,
+            "eps": F(1, 2 ** 20), "aeps": rng.choice([F(1, 2 ** 10), F(0), F(1, 4)])}
+
+
+def hist_dist_key(c):
+    def tag(h):
+        return h[2][0] if h[0] == "apply" else h[0]
+    return "hist/" + "+".join(tag(h) for h in c["hops"])[:80]
+
+
+def hist_shrink(case):
+    cells, hops = case["cells"], case["hops"]
+    for i in range(len(hops) - 1, -1, -1):
+        yield dict(case, hops=hops[:i] + hops[i + 1:])
+    for i in range(len(cells)):
+        if len(cells) > 1:
+            yield dict(case, cells=cells[:i] + cells[i + 1:])
+    for i, h in enumerate(hops):
+        if h[0] == "apply" and h[2][0] == "refine" and h[2][2] > 1:
+            yield dict(case, hops=hops[:i] + [["apply", h[1], ["refine", h[2][1], 1]]] + hops[i + 1:])
+        if h[0] == "setfixed" and h[2] >= len(cells):
+            yield dict(case, hops=hops[:i] + [["setfixed", h[1], h[2] % max(len(cells), 1), h[3]]] + hops[i + 1:])
+    for i, c in enumerate(cells):
+        if c["depth"] > 0:
+            yield dict(case, cells=cells[:i] + [dict(c, depth=c["depth"] - 1)] + cells[i + 1:])
+        if len(c["alloc"]) > 1:
+            yield dict(case, cells=cells[:i] + [dict(c, alloc=c["alloc"][:1])] + cells[i + 1:])
+
+
+def is_hist(case):
+    return "hops" in case
+
+
+def run_any(case):
+    return run_hist_impl(case) if is_hist(case) else run_impl(case)
+
+
+def any_to_coq(case, obs):
+    return hist_to_coq(case, obs) if is_hist(case) else to_coq(case, obs)
+
+
+def any_shrink(case):
+    return hist_shrink(case) if is_hist(case) else shrink(case)
+
+
+def any_dist_key(c):
+    return hist_dist_key(c) if is_hist(c) else dist_key(c)
